@@ -830,6 +830,10 @@ class Step:
                         cur = st.env[lid]
                         if op == "^=" and cur[0] == "octet" and t[0] == "const":
                             st.env[lid] = ("octet", (cur[1] ^ t[1]) & 0xFF, cur[2])     # a copy of the octet, un-escaped in place
+                            st.env[("txt", lid)] = "(%s ^ %s)" % (st.env.get(("txt", lid), ltxt), self.resolve(rhs, snap))
+                            st.events.append(("local", ltxt, st.env[lid], node.id, line))    # as `copy = copy ^ k` would be
+                            self.invalidate(st, ltxt)
+                            continue
                         else:
                             st.env[lid] = ("expr", "%s %s %s" % (ltxt, op, ctext(rhs)))
                         st.env[("txt", lid)] = "(%s %s %s)" % (st.env.get(("txt", lid), ltxt), op[:-1], self.resolve(rhs, snap))
